@@ -15,6 +15,8 @@ def schema_texts(run, n_random, opts=None):
     out = []
     for j, _vals in common.boundary_cases():
         out.append((j, 'boundary'))
+    for j in common.name_resolution_cases():
+        out.append((j, 'names'))
     o = opts or gschema.Opts(decorations=True, defaults=True, attr_on_logical=True)
     for i in range(n_random):
         rng = random.Random('%s/c12/%d' % (run.seed, i))
